@@ -780,7 +780,7 @@ class Constructs(mixin.Container, core.Constructs):
             if check_axis_identities:
                 # Try to convert a domain axis identity into a domain
                 # axis identifier
-                c = self.filter(
+                c = unfiltered.filter(
                     filter_by_type=("domain_axis",),
                     filter_by_identity=(value,),
                     todict=True,
